@@ -73,7 +73,7 @@ def handle (ws : List String) : String :=
       let w := weighted == "1"
       let nf : Frac := if norm == "1" then (if w then treeLength fracLen t else ((numEdges t : Nat) : Frac)) else Frac.one
       if nf.isZero then "ZeroDivisionError" else
-      let val : Entry Nat Frac → Frac := if w then (·.d) else fun e => ((e.steps : Nat) : Frac)
+      let val : Entry Nat Frac → Frac := selVal w
       let es := entries fracLen taxonKey t
       let tbl := table fracLen taxonKey t
       match kind with
@@ -91,6 +91,15 @@ def handle (ws : List String) : String :=
       | .valueError => "ValueError"
       | .startGone => "start-gone"
       | .found t' r => (match r with | some u => toString u.id | none => "None") ++ " | " ++ shape t'
+    | _, _, _, _ => "bad-op"
+  | "tm" :: rooted :: refresh :: a :: b :: stored :: rest =>
+    match a.toNat?, b.toNat?, parseNatCsv stored, parseTree rest with
+    | some a, some b, some stored, some (t, []) =>
+      let arr := stored.toArray
+      match treePatristic fracLen (rooted == "1") (refresh == "1") (fun i => arr[i]?.getD 0) a b t with
+      | .valueError => "ValueError"
+      | .attributeError => "AttributeError"
+      | .ok d => d.render
     | _, _, _, _ => "bad-op"
   | "nj" :: n :: rest =>
     match n.toNat? with
